@@ -10,10 +10,11 @@ TDet == /\ IsEv("vrf_det")
         /\ Ev.deterministic /\ Ev.proof_agrees /\ Ev.bulk_agrees /\ Ev.len256
         /\ Ev.verifies /\ ~Ev.verifies_under_other_key /\ Ev.key_dependent /\ Ev.commitment_key_dependent
         /\ ~Ev.collides_with_other_input /\ Ev.flip_yields_other_label = 0
+TSens == IsEv("vrf_sens") /\ Ev.unchanged = 0 /\ Ev.tried > 0
 TMut == IsEv("wire_mut") /\ DecodeOK(Ev.class, Ev.res)
 TFuzz == IsEv("wire_fuzz") /\ FuzzOK(Ev.res)
 TBlob == IsEv("blob") /\ Ev.roundtrip
-TNext == TRow \/ TDet \/ TMut \/ TFuzz \/ TBlob
+TNext == TRow \/ TDet \/ TSens \/ TMut \/ TFuzz \/ TBlob
 Track == TLCSet(1, IF pos > TLCGet(1) THEN pos ELSE TLCGet(1))
 Accepted ==
   LET reached == TLCGet(1) IN
